@@ -8,6 +8,8 @@ def run(ctx):
     seeds = [ctx.seed] if not thorough else [ctx.seed, ctx.seed + 1, ctx.seed + 2, ctx.seed + 3]
     # library level: every edge of the bounded Store model + password-length boundary sweep
     storefam.run_family(ctx, seeds=seeds, sweep=True)
+    # histories of 30 steps over 3 users / 4 passwords / 3 parameter sets, each against one real directory
+    storefam.histories(ctx, 400 if not thorough else 6000)
     # histories with failed operations caused by I/O errors: a failed add/update must not change what
     # authenticates, exists or is listed (one real run per failing system call of the write protocol)
     drv = fsfam.Driver(ctx)
